@@ -5,12 +5,18 @@ from vlib.mirsmt import c23
 ENCODED = ["MachineState::try_arg (all paths): the Str and Lis arms for both integer representations of N, "
            "and the error mapping",
            "MachineState::try_functor (all paths): inspection by cell kind, construction-mode errors and "
-           "outcomes; try_functor_unify_components"]
+           "outcomes; try_functor_unify_components",
+           "MachineState::try_functor_fabricate_struct and its two writer closures (all paths; the loop as one "
+           "iteration from its head): which cells are written where, what T is bound to, cells written = cells "
+           "reserved, nothing written after a failed reservation; the arity guards on every path of try_functor "
+           "that reaches it"]
 ASSUME = ["Number::try_from, get_num, the usize conversion of a bignum cell, get_arity, heap_loc_as_cell! are "
           "uninterpreted (the value of N is whatever they return; C05 treats the two representations)",
-          "unify_fn! unifies the pair it pushes on the pdl (C10 decides one step of that)"]
+          "unify_fn! unifies the pair it pushes on the pdl (C10 decides one step of that)",
+          "ReservedHeapSection::push_cell appends at consecutive cells starting at the heap top read before the "
+          "reservation (C33 decides the writer's capacity arithmetic); Range<usize>::next yields start..end once each"]
 BOUNDS = "every N, arity, location as 64-bit words"
-OUTSIDE = ("try_functor_fabricate_struct (heap writes), =../2, copy_term/2, term_variables/2, ground/1, subsumes_term/2 (MachineState-wide "
+OUTSIDE = ("=../2, copy_term/2, term_variables/2, ground/1, subsumes_term/2 (MachineState-wide "
            "traversals / Prolog source), the partial-string arm of arg/3")
 
 
